@@ -126,6 +126,9 @@ structure Cfg where
   ac0First : Bool           -- AC0/online before AC/online
   batPrefix : Bytes         -- "BAT"
   batInfix : Bytes          -- "battery"
+  /-- a missing `/sys/class/power_supply` (`os.listdir` raises FileNotFoundError) is answered with
+      `None` (the listing is guarded / the error is caught) instead of leaving `sensors_battery()` -/
+  noDirNone : Bool
 
 /-! ## hwmon temperatures -/
 
@@ -483,7 +486,7 @@ def batSecsleft (cfg : Cfg) (plugged : Option Bool) (energyNow powerNow timeToEm
 
 /-- `_pslinux.sensors_battery()` -/
 def sensorsBattery (cfg : Cfg) (p : PowerTree) : Res (Option BatOut) :=
-  if !p.dirExists then .error .osError
+  if !p.dirExists then (if cfg.noDirNone then .ok none else .error .osError)
   else
     match (p.supplies.map (·.name)).filter (isBattery cfg) with
     | [] => .ok none
@@ -821,10 +824,26 @@ def bootTimeScan : List Bytes → Res Rat
       | _ => .error .indexError
     else bootTimeScan ls
 
-/-- `psutil.boot_time()` -/
+/-- `psutil.boot_time()`: the value returned -/
 def bootTime (stat : FileState) : Res Rat :=
   match stat.read with
   | .error e => .error e
   | .ok b => bootTimeScan (linesOf b)
+
+/-- one call of `boot_time()` with the module global `BOOT_TIME` made explicit (`g`; `none` = not set
+    yet): the global is written by the FIRST successful call only (Process.create_time() relies on it),
+    the value RETURNED is the one just read (`returnsFresh`, a translator fact: `return ret`) — or, were
+    the function to serve the remembered value, the global. Result = (returned, new global). -/
+def bootTimeCall (returnsFresh : Bool) (g : Option Rat) (stat : FileState) : Res Rat × Option Rat :=
+  match bootTime stat with
+  | .error e => (.error e, g)
+  | .ok v =>
+    let g' := match g with | some x => some x | none => some v
+    (.ok (if returnsFresh then v else g'.getD v), g')
+
+/-- a history of calls, each on the /proc/stat of its moment -/
+def bootTimeRun (returnsFresh : Bool) : Option Rat → List FileState → List (Res Rat)
+  | _, [] => []
+  | g, s :: ss => let r := bootTimeCall returnsFresh g s; r.1 :: bootTimeRun returnsFresh r.2 ss
 
 end Psutil.C19
